@@ -135,7 +135,11 @@ def run_variants(prop: str, variants: list[Variant], rep: Report) -> dict:
             out['skipped'].append(f'{v.name}: {err}')
             continue
         if v.rule is None:
-            if status == 'error':
+            if (status == 'error' or new) and v.note:
+                out.setdefault('known_limits', []).append(f'{v.name}: {v.note}')
+                out['details'].append({'variant': v.name, 'kind': 'neutral', 'verdict': 'known limitation',
+                                       'why': v.note})
+            elif status == 'error':
                 out['false_alarm'].append(f'{v.name}: neutral rewrite breaks the analysis ({err})')
             elif new:
                 out['false_alarm'].append(f'{v.name}: neutral rewrite reported {new[:2]}')
@@ -162,7 +166,29 @@ def run_variants(prop: str, variants: list[Variant], rep: Report) -> dict:
     return out
 
 
+def neutral_patch_variants(prop: str, root: str = '') -> list['Variant']:
+    """behaviour-preserving refactorings kept under /verif/neutral/<set>/refactor<n>.diff (written by
+    sub-agents that saw only a property text; each shown equivalent by differential testing): every
+    property must stay quiet on every one of them.  neutral/known_limits.json lists the (patch,
+    property) pairs where a check is known to report such a refactoring, with the reason."""
+    import json
+    import pathlib
+    base = pathlib.Path(root or pathlib.Path(__file__).resolve().parent.parent / 'neutral')
+    limits = {}
+    try:
+        limits = json.loads((base / 'known_limits.json').read_text())
+    except (OSError, ValueError):
+        pass
+    out = []
+    for d in sorted(base.glob('*/refactor*.diff')):
+        key = f'{d.parent.name}/{d.name}'
+        v = Variant(f'neutral refactoring {key}', [], None, patch=str(d))
+        v.note = limits.get(key, {}).get(prop, '')
+        out.append(v)
+    return out
+
+
 def make_selftest(prop: str, variants: list[Variant]):
     def selftest(rep: Report) -> dict:
-        return run_variants(prop, list(variants) + seed_variants(prop), rep)
+        return run_variants(prop, list(variants) + seed_variants(prop) + neutral_patch_variants(prop), rep)
     return selftest
